@@ -2,6 +2,6 @@
 From Coq Require Import Extraction ExtrOcamlBasic.
 From Tele Require Import Lib.Bytes Lib.Sched Gen.Consts Model.Start.
 Extraction Language OCaml.
-Extraction "start_model.ml" start_run spawned program_run spawned_e program_run_env spawned_env program_run_file spawned_file mode_of_file mode_of_bytes effective_mode dir_known start_ok launch_ok is_sidecar token_state_allows
+Extraction "start_model.ml" start_run spawned program_run spawned_e program_run_env spawned_env program_run_file spawned_file program_run_cfg spawned_cfg history_run history_spaced mode_of_file mode_of_bytes effective_mode dir_known start_ok launch_ok is_sidecar token_state_allows
   trun tinit winners c_tokenPeriod_ns c_telemetryChildVar c_telemetryUploadVar lit_1 lit_2 lit_off lit_on beq
   count.
